@@ -198,7 +198,7 @@ def run_tlc(wd, module, cfg=None, modules=(), consts=None, workers=None, timeout
         cmd += ["-seed", str(seed())]
     cmd.append(module + ".tla")
     env = dict(os.environ)
-    jopts = "-Xss" + xss
+    jopts = "-Xss" + xss + " -Djava.io.tmpdir=" + rd   # (TLC leaves a tlc-<n> directory in the temp dir: keep it inside the run directory)
     if heap:
         jopts += " -Xmx" + heap
     if dfs:
